@@ -11,6 +11,7 @@ import (
 func init() { register("C14", c14) }
 
 func c14(c *Ctx) {
+	defer c14superiors(c)
 	P, R := c.P, c.R
 	R.Explain("R14.1", "pattern injection (T-SOURCE): every operand of regexp.Compile/MustCompile in the server packages is built only from constants and regexp.QuoteMeta results (string concatenation, fmt.Sprintf, strings.ReplaceAll of such parts); a raw configuration or client string in a pattern can make MustCompile panic or change the match.")
 	R.Explain("R14.2", "protection guards (T-DOM): handleCreate/handleDelete refuse INBOX (case-insensitively) before calling the state; the recovery mailbox guards of R20.3.")
@@ -281,4 +282,24 @@ func quotedPattern(v ssa.Value) (bool, string) {
 	}
 	walk(v)
 	return ok, bad
+}
+
+// c14superiors (R14.6): CREATE and RENAME look at every superior of the new name.
+func c14superiors(c *Ctx) {
+	R := c.R
+	R.Explain("R14.6", "hierarchy repair is complete: the loops of State.Create and State.Rename over listSuperiors(name) test every superior (no break): deleting a mailbox with inferiors removes only that mailbox, so a missing ancestor can sit above an existing one and must still be re-created, otherwise it stays \\Noselect after CREATE of a deeper name.")
+	n := 0
+	for _, name := range []string{"internal/state.(*State).Create", "internal/state.(*State).Rename"} {
+		f := c.fn("R14.6", name)
+		if f == nil {
+			continue
+		}
+		for _, g := range engine.WithClosures(f) {
+			n += c.exhaustiveLoopsOver("R14.6", g, "listSuperiors(name)", func(x ssa.Value) bool {
+				call, ok := x.(*ssa.Call)
+				return ok && call.Call.StaticCallee() != nil && engine.ShortName(call.Call.StaticCallee()) == "listSuperiors"
+			}, "a missing superior above an existing one is not re-created and stays \\Noselect")
+		}
+	}
+	R.Min("R14.6", "loops over listSuperiors in Create/Rename", n, 2)
 }
